@@ -33,6 +33,7 @@ type c11Patch struct {
 	Minus  []impSpec // '-' imports (Name "$" = identifier metavariable)
 	Ctx    []impSpec // context imports
 	Plus   []impSpec // '+' imports
+	Extra  []string // further paths the file must import for the patch's guards to hold (each under a random name, used or not)
 	Needs  func(name string) bool
 	Site   func(name string, r *rand.Rand) string // an instance of the code pattern, given the file's name for P
 	Action string
@@ -62,6 +63,14 @@ var c11Patches = []c11Patch{
 	{Name: "delete-any", Action: "delete-metavar",
 		Text:  "@@\nvar foo identifier\nvar x expression\n@@\n-import foo \"" + c11P + "\"\n\n-foo.Do(x)\n+do(x)\n",
 		Minus: []impSpec{{"$", c11P}},
+		Site:  func(n string, r *rand.Rand) string { return n + ".Do(" + fmt.Sprint(r.Intn(9)) + ")" }},
+	{Name: "delete-two-any", Action: "delete-metavar-two",
+		Text:  "@@\nvar foo, qux identifier\nvar x expression\n@@\n-import foo \"" + c11P + "\"\n-import qux \"example.com/old/qux\"\n\n-foo.Do(x)\n+do(x)\n",
+		Minus: []impSpec{{"$", c11P}, {"$", "example.com/old/qux"}}, Extra: []string{"example.com/old/qux"},
+		Site:  func(n string, r *rand.Rand) string { return n + ".Do(" + fmt.Sprint(r.Intn(9)) + ")" }},
+	{Name: "delete-two-any-reversed", Action: "delete-metavar-two",
+		Text:  "@@\nvar foo, qux identifier\nvar x expression\n@@\n-import qux \"example.com/old/qux\"\n-import foo \"" + c11P + "\"\n\n-foo.Do(x)\n+do(x)\n",
+		Minus: []impSpec{{"$", "example.com/old/qux"}, {"$", c11P}}, Extra: []string{"example.com/old/qux"},
 		Site:  func(n string, r *rand.Rand) string { return n + ".Do(" + fmt.Sprint(r.Intn(9)) + ")" }},
 	{Name: "add-only", Action: "add",
 		Text: "@@\nvar x expression\n@@\n+import \"" + c11Q + "\"\n\n-legacy(x)\n+bar.New(x)\n",
@@ -168,7 +177,8 @@ func renderImports(specs []impSpec, r *rand.Rand) string {
 
 func importSet(src string) (map[impSpec]bool, *ast.File, error) {
 	fs := token.NewFileSet()
-	f, err := parser.ParseFile(fs, "x.go", src, parser.SkipObjectResolution)
+	// with object resolution: a selector on a local variable that has the package's name is not a reference to the package
+	f, err := parser.ParseFile(fs, "x.go", src, 0)
 	if err != nil {
 		return nil, nil, err
 	}
@@ -187,7 +197,7 @@ func usesName(f *ast.File, name string) bool {
 	used := false
 	ast.Inspect(f, func(n ast.Node) bool {
 		if sel, ok := n.(*ast.SelectorExpr); ok {
-			if id, ok := sel.X.(*ast.Ident); ok && id.Name == name {
+			if id, ok := sel.X.(*ast.Ident); ok && id.Name == name && id.Obj == nil {
 				used = true
 			}
 		}
@@ -238,6 +248,7 @@ func runC11(ctx *core.Ctx, idx int) *core.Result {
 		p = c11Variant(p, pathP, "example.com/api/apps/v0", "v1", "v0")
 	}
 	var srcs, forms, usesCls []string
+	var extraNames []map[string]string
 	for f := 0; f < 4; f++ {
 		// form of the affected import in the file
 		form := []string{"unnamed", "named-f", "named-foo", "absent", "unnamed", "named-f"}[r.Intn(6)]
@@ -251,6 +262,12 @@ func runC11(ctx *core.Ctx, idx int) *core.Result {
 			name = "f"
 		case "named-foo":
 			specs = append(specs, impSpec{pn, pathP})
+		}
+		extraName := map[string]string{}
+		for _, ep := range p.Extra {
+			en := []string{"", "opts", "qq"}[r.Intn(3)]
+			extraName[ep] = en
+			specs = append(specs, impSpec{en, ep})
 		}
 		others := append([]impSpec{}, c11Others...)
 		r.Shuffle(len(others), func(i, j int) { others[i], others[j] = others[j], others[i] })
@@ -266,8 +283,9 @@ func runC11(ctx *core.Ctx, idx int) *core.Result {
 			fmt.Fprintf(&body, "\tuse(%s)\n", p.Site(name, r))
 		}
 		useCls := "none"
+		shadow := ""
 		if form != "absent" {
-			switch r.Intn(6) {
+			switch r.Intn(7) {
 			case 0:
 				fmt.Fprintf(&body, "\t%s.Unrelated()\n", name)
 				useCls = "elsewhere"
@@ -282,11 +300,25 @@ func runC11(ctx *core.Ctx, idx int) *core.Result {
 			case 4:
 				fmt.Fprintf(&body, "\tvar vt %s.Type\n\tuse(vt, []*%s.Other{}, func(a %s.Arg) {})\n", name, name, name)
 				useCls = "elsewhere-in-types"
+			case 5:
+				// no reference to the package is left, but a local variable of the same name is used as a selector base
+				shadow = fmt.Sprintf("\nfunc fnShadow() {\n\t%s := mkLocal()\n\t%s.Info(\"done\")\n\tuse(%s.field.sub)\n}\n", name, name, name)
+				useCls = "only-a-shadowing-local"
 			}
 		}
+		for ep, en := range extraName {
+			if r.Intn(2) == 0 {
+				n := en
+				if n == "" {
+					n = baseName(ep)
+				}
+				fmt.Fprintf(&body, "\t%s.StillUsed()\n", n)
+			}
+		}
+		extraNames = append(extraNames, extraName)
 		// keep the other named imports "used"
 		for _, s := range specs {
-			if s.Path == pathP || s.Name == "_" || s.Name == "." {
+			if _, isExtra := extraName[s.Path]; isExtra || s.Path == pathP || s.Name == "_" || s.Name == "." {
 				continue
 			}
 			n := s.Name
@@ -297,7 +329,7 @@ func runC11(ctx *core.Ctx, idx int) *core.Result {
 				fmt.Fprintf(&body, "\t%s.Use()\n", n)
 			}
 		}
-		src := "package p\n\n" + renderImports(specs, r) + "\nfunc fnMain() {\n" + body.String() + "}\n"
+		src := "package p\n\n" + renderImports(specs, r) + "\nfunc fnMain() {\n" + body.String() + "}\n" + shadow
 		srcs = append(srcs, src)
 		forms = append(forms, form)
 		usesCls = append(usesCls, useCls)
@@ -337,6 +369,9 @@ func runC11(ctx *core.Ctx, idx int) *core.Result {
 			fileName := map[string]string{"unnamed": "", "named-f": "f", "named-foo": pn}[forms[i]]
 			resolve := func(s impSpec) impSpec {
 				if s.Name == "$" {
+					if en, ok := extraNames[i][s.Path]; ok {
+						return impSpec{en, s.Path}
+					}
 					return impSpec{fileName, s.Path}
 				}
 				return s
